@@ -265,7 +265,8 @@ public:
         {
             destruct_pixels(_view);
             create_view(dims, std::integral_constant<bool, IsPlanar>());
-            default_construct_pixels(_view);
+            try { default_construct_pixels(_view); }
+            catch (...) { _view = view_t(); throw; } // no element is alive: keep the storage, hold an empty image
         }
         else
         {
@@ -290,7 +291,8 @@ public:
         {
             destruct_pixels(_view);
             create_view(dims, typename std::integral_constant<bool, IsPlanar>());
-            uninitialized_fill_pixels(_view, p_in);
+            try { uninitialized_fill_pixels(_view, p_in); }
+            catch (...) { _view = view_t(); throw; } // no element is alive: keep the storage, hold an empty image
         }
         else
         {
@@ -316,7 +318,8 @@ public:
         {
             destruct_pixels(_view);
             create_view(dims, std::integral_constant<bool, IsPlanar>());
-            default_construct_pixels(_view);
+            try { default_construct_pixels(_view); }
+            catch (...) { _view = view_t(); throw; } // no element is alive: keep the storage, hold an empty image
         }
         else
         {
@@ -341,7 +344,8 @@ public:
         {
             destruct_pixels(_view);
             create_view(dims, std::integral_constant<bool, IsPlanar>());
-            uninitialized_fill_pixels(_view, p_in);
+            try { uninitialized_fill_pixels(_view, p_in); }
+            catch (...) { _view = view_t(); throw; } // no element is alive: keep the storage, hold an empty image
         }
         else
         {
